@@ -29,7 +29,7 @@ ASSUMPTIONS = [
     "the first point may be counted as k=0 or k=1: first emitted index accepted in [20, 2^16]; the draw log must show the start requested from exactly [20, 2^16)",
     "grid-level comparison skips reference points within 1e-9 of a cell mid-point",
 ]
-REQUIRED_COUNTERS = {"halton_prime_power_indices": 200, "lifecycle_draws": 60, "lifecycle_pickle_roundtrips": 8, "lifecycle_reseed_same_seed": 5, "lifecycle_space_changes": 5, "lifecycle_draws_above_1024": 3, "cursor_placed_near_boundary": 10, "halton_points": 1500, "prime_tables": 20, "sampler_objects": 40, "split_sequences": 40, "rseq_points": 400, "start_draws_logged": 40}
+REQUIRED_COUNTERS = {"halton_prime_power_indices": 200, "lifecycle_draws": 60, "lifecycle_pickle_roundtrips": 8, "lifecycle_reseed_same_seed": 5, "lifecycle_space_changes": 5, "lifecycle_moves_to_more_dimensions": 8, "lifecycle_draws_above_1024": 3, "cursor_placed_near_boundary": 10, "halton_points": 1500, "prime_tables": 20, "sampler_objects": 40, "split_sequences": 40, "rseq_points": 400, "start_draws_logged": 40}
 SHARDS = {"quick": 8, "thorough": 16}
 
 
@@ -160,7 +160,9 @@ def run_lifecycle(rng, out, bad):
         w = {"sampler": which, "seed": seed, "batch_size": bsz, "ops": ops, "space": sd}
         c["lifecycle_objects"] = c.get("lifecycle_objects", 0) + 1
         for _step in range(int(rng.integers(3, 9))):
-            op = str(rng.choice(["draw", "draw", "draw", "bigdraw", "pickle", "deepcopy", "reseed_same", "reseed_other", "other_space"], p=[0.3, 0.15, 0.1, 0.05, 0.1, 0.05, 0.1, 0.05, 0.1]))
+            op = str(rng.choice(["draw", "draw", "draw", "bigdraw", "pickle", "deepcopy", "reseed_same", "reseed_other", "other_space", "more_dimensions"], p=[0.3, 0.15, 0.05, 0.05, 0.1, 0.05, 0.1, 0.05, 0.05, 0.1]))
+            if _step == 1 and rng.random() < 0.3:
+                op = "more_dimensions"
             if op in ("draw", "bigdraw"):
                 n = int(rng.integers(1, 9)) if op == "draw" else int(rng.integers(1025, 2600))
                 ops.append(["draw", n])
@@ -224,6 +226,15 @@ def run_lifecycle(rng, out, bad):
                 with quiet():
                     smp.random_state = seed
                 cur, off = start_of(seed, reseeded=True)
+            elif op == "more_dimensions":
+                # the same object moves on to a space with (many) more parameters: its prime table / constants are extended, not rebuilt
+                d_new = int(min(40, rng.choice([space.dims + 1, 2 * space.dims + 1, 5 * space.dims, 40])))
+                sd = G.gen_space(rng, dims=d_new, max_points=200)
+                space = G.build_space(sd)
+                ops.append(["search space with more parameters", {"dims": space.dims}])
+                w["space"] = sd
+                c["lifecycle_space_changes"] = c.get("lifecycle_space_changes", 0) + 1
+                c["lifecycle_moves_to_more_dimensions"] = c.get("lifecycle_moves_to_more_dimensions", 0) + 1
             else:
                 sd, space = new_space()
                 ops.append(["other search space", {"dims": space.dims}])
@@ -244,18 +255,25 @@ def run_case(desc, ctx):
 
     kind = desc["kind"]
     if kind == "primes":
-        calc = H._CachedPrimesCalculator()
-        seq = [int(x) for x in rng.integers(1, 60, size=12)] + [1, 40, 41, 200, 3, 199]
-        for n in seq:
-            got = [int(x) for x in calc.get_n_primes(n)]
-            exp = sieve(n)
-            c["prime_tables"] = c.get("prime_tables", 0) + 1
-            out["evals"] += 1
-            if got != exp:
-                bad(f"get_n_primes({n}) = {got[:12]}..., sieve gives {exp[:12]}...", {"requests": seq})
-                break
-            if n > 40:
-                out["nontrivial"].append(f"primes:{n}:{desc['i']}")
+        # request sequences on ONE calculator object (its table is extended step by step): random; growing by one; doubling;
+        # a small table first and a much larger one next (the square of the last prime of the first table lies inside the second)
+        seqs = [[int(x) for x in rng.integers(1, 60, size=12)] + [1, 40, 41, 200, 3, 199], list(range(1, 61)), [1, 2, 4, 8, 16, 32, 64, 128, 200]]
+        for a in range(1, 9):
+            seqs.append([a, int(rng.integers(a + 1, 12)), int(rng.integers(12, 70)), 200])
+            seqs.append([a, int(rng.choice([20, 40, 60, 100]))])
+        for seq in seqs:
+            calc = H._CachedPrimesCalculator()
+            for n in seq:
+                got = [int(x) for x in calc.get_n_primes(n)]
+                exp = sieve(n)
+                c["prime_tables"] = c.get("prime_tables", 0) + 1
+                out["evals"] += 1
+                if got != exp:
+                    k_ = next((i_ for i_, (x_, y_) in enumerate(zip(got, exp)) if x_ != y_), min(len(got), len(exp)))
+                    bad(f"get_n_primes({n}) after the requests {seq[:seq.index(n)]} on the same calculator: entry {k_} is {got[k_] if k_ < len(got) else None}, the {k_ + 1}-th prime is {exp[k_] if k_ < len(exp) else None}", {"requests": seq})
+                    break
+                if n > 40:
+                    out["nontrivial"].append(f"primes:{n}:{desc['i']}")
         return out
 
     if kind == "halton-fn":
